@@ -94,9 +94,13 @@ fn main() {
     #[cfg(feature = "temperature")] {
         use quantities::temperature::*;
         use quantities::Converter;
-        let t = Amnt!(21.5) * DEGREE_CELSIUS;
-        for u in Temperature::iter_units() {
-            println!("temperature conv {}", TEMPERATURE_CONVERTER.convert(&t, u).map(sq).unwrap_or_default());
+        for a in [Amnt!(21.5), Amnt!(451.3), Amnt!(-40.0), Amnt!(98.6), Amnt!(0.1), Amnt!(37.77), Amnt!(1234.5678), Amnt!(-273.15), Amnt!(5.55), Amnt!(99.99), Amnt!(300.7), Amnt!(0.003)] {
+            for from in Temperature::iter_units() {
+                let t = a * from;
+                for u in Temperature::iter_units() {
+                    println!("temperature conv {} -> {}", sq(t), TEMPERATURE_CONVERTER.convert(&t, u).map(sq).unwrap_or_default());
+                }
+            }
         }
     }
 }
